@@ -1,5 +1,6 @@
 import Lean.Data.Json
 import CbiVerif.Model.FSource
+import CbiVerif.Model.FCleanCells
 import CbiVerif.Spec.FortranRef
 import CbiVerif.Model.FCond
 import CbiVerif.PP.Analyse
@@ -69,6 +70,31 @@ def handleCond (j : Json) : Json :=
     | .error _ => false
   Json.mkObj [("wf", Json.bool wf), ("nodes", nodes), ("model", model), ("spec", spec)]
 
-def handlers : List (String × (Json → Json)) := [("fortran", handleFortran), ("fortran_cond", handleCond)]
+/-! ## `fclean_cells`: the model's cells, to be diffed against the regenerated tables
+
+`{"op":"fclean_cells","starts":[[[stack ids],[verify_continue code points]]],"lines":[[code points]],
+  "codepoints":[n],"dstacks":[[ids]]}` →
+`{"lines":[[entry per line] per start], "charclass":[class index per code point],
+  "dstep":[[[entry per ASCII character] per blank=false,true] per dstack], "dnewline":[entry per dstack]}`
+— the functions of `Model/FCleanCells.lean`, the ones the table theorems are about. -/
+open CbiVerif.Fortran.Regen in
+def handleCells (j : Json) : Json :=
+  let starts := ((j.getObjValAs? (Array (Array (Array Nat))) "starts").toOption.getD #[]).toList.map fun a =>
+    ((a[0]?.getD #[]).toList, (a[1]?.getD #[]).toList)
+  let lines := ((j.getObjValAs? (Array (Array Nat)) "lines").toOption.getD #[]).toList.map (·.toList)
+  let cps := ((j.getObjValAs? (Array Nat) "codepoints").toOption.getD #[]).toList
+  let dstacks := ((j.getObjValAs? (Array (Array Nat)) "dstacks").toOption.getD #[]).toList.map (·.toList)
+  let ent (e : Regen.Entry) : Json :=
+    Json.arr #[Json.bool e.1, natArr e.2.1, natArr e.2.2.1, natArr e.2.2.2.1, Json.bool e.2.2.2.2]
+  let cent (e : Regen.CEntry) : Json := Json.arr #[Json.bool e.1, natArr e.2.1, natArr e.2.2]
+  Json.mkObj [
+    ("lines", Json.arr (starts.map fun s0 => Json.arr (lines.map fun l => ent (lineObs (startSt s0) (chars l))).toArray).toArray),
+    ("charclass", natArr (cps.map fun n => clsIdx (cls (Char.ofNat n)))),
+    ("dstep", Json.arr (dstacks.map fun st => Json.arr ([false, true].map fun b =>
+      Json.arr ((List.range 128).map fun n => cent (dCell (st.map dModeOfId) b (Char.ofNat n))).toArray).toArray).toArray),
+    ("dnewline", Json.arr (dstacks.map fun st => cent (dNewlineCell (st.map dModeOfId))).toArray)]
+
+def handlers : List (String × (Json → Json)) :=
+  [("fortran", handleFortran), ("fortran_cond", handleCond), ("fclean_cells", handleCells)]
 
 end CbiVerif.Drv.Fortran
